@@ -75,6 +75,47 @@ fn defaults(ch: &mut Choices, case: &mut Case) -> Result<(), String> {
     Ok(())
 }
 
+/// The minute of each sun event under a zone + coordinates location: the UTC instant of the event (taken from the
+/// `sunrise` crate directly, the astronomy itself is not C11's subject) expressed on the wall clock of the zone with
+/// chrono-tz, floored to the minute. Zones and dates are biased to the eras of local mean time, whose offsets have a
+/// seconds part (S-C09-j is one minute early there on a third of the days).
+fn event_minutes(ch: &mut Choices, case: &mut Case) -> Result<(), String> {
+    use sunrise::{DawnType, SolarDay, SolarEvent};
+    let (lat, lon) = gen_coords_60(ch);
+    let tz = chrono_tz::TZ_VARIANTS[ch.draw(chrono_tz::TZ_VARIANTS.len() as u32) as usize];
+    let d = if ch.chance(55) {
+        NaiveDate::from_ymd_opt(1900 + ch.draw(40) as i32, 1 + ch.draw(12), 1 + ch.draw(28)).unwrap()
+    } else {
+        gen_date(ch)
+    };
+    let coords = Coordinates::new(lat, lon).ok_or_else(|| format!("valid coordinates ({lat}, {lon}) rejected"))?;
+    let Some(sun_coords) = sunrise::Coordinates::new(lat, lon) else { return Err("harness: coordinates rejected by the sunrise crate".into()) };
+    let locale = TzLocation::new(tz).with_coords(coords);
+    case.key = format!("({lat:.4}, {lon:.4}) in {tz} on {d}");
+    let events = [("dawn", SolarEvent::Dawn(DawnType::Civil)), ("sunrise", SolarEvent::Sunrise), ("sunset", SolarEvent::Sunset), ("dusk", SolarEvent::Dusk(DawnType::Civil))];
+    let mut odd = false;
+    for (name, ev) in events {
+        let u = SolarDay::new(sun_coords, d).event_time(ev);
+        let local = u.with_timezone(&tz).naive_local();
+        let expected = i64::from(local.hour() * 60 + local.minute());
+        odd |= chrono::Offset::fix(u.with_timezone(&tz).offset()).local_minus_utc() % 60 != 0;
+        let oh = OpeningHours::parse(&format!("{name}-24:00")).unwrap().with_context(Context::default().with_locale(locale.clone()));
+        let periods = open_periods(&oh, d).map_err(|p| format!("`{name}-24:00` at ({lat}, {lon}) in {tz} on {d}: schedule_at panicked: {p}"))?;
+        case.units += 1;
+        let got = periods.iter().find(|(_, b)| *b == 1440).map(|(a, _)| *a);
+        if got != Some(expected) {
+            return Err(format!(
+                "`{name}-24:00` at ({lat:.4}, {lon:.4}) in {tz} on {d}: opens at minute {got:?} of the day, but the event is at {u} = {local} on the wall clock of {tz} (minute {expected}); periods {periods:?}"
+            ));
+        }
+    }
+    if odd {
+        case.label("zone_offset_with_a_seconds_part");
+    }
+    case.nontrivial = odd;
+    Ok(())
+}
+
 fn gen_coords_60(ch: &mut Choices) -> (f64, f64) {
     match ch.weighted(&[55, 25, 20]) {
         // uniform on the sphere band |lat| <= 60
@@ -480,6 +521,15 @@ pub fn property() -> Property {
                 text_f: None,
                 cases_quick: 40_000,
                 cases_thorough: 200_000,
+                max_choices: 24,
+            },
+            SubCheck {
+                name: "event_minutes",
+                rule: "coordinates (|lat| <= 60) x any chrono-tz zone x date (55 % in 1900..1939, the eras of local mean time) under TzLocation::new(zone).with_coords(..): `dawn-24:00`, `sunrise-24:00`, `sunset-24:00`, `dusk-24:00` open exactly at the minute obtained by expressing the event's UTC instant (sunrise crate) on the zone's wall clock with chrono-tz and flooring to the minute; non-trivial = the zone's offset has a seconds part on that day",
+                f: event_minutes,
+                text_f: None,
+                cases_quick: 30_000,
+                cases_thorough: 600_000,
                 max_choices: 24,
             },
             SubCheck {
